@@ -202,7 +202,7 @@ def corrfit_cases(rng, n, ctx):
     weights frozen at the errors the user's own analysis (non-default parameters) left on the correlator"""
     cases = []
     i = 0
-    while len(cases) < 2 * n and i < 10 * n:
+    while len(cases) < 4 * n and i < 10 * n:
         i += 1
         T = int(rng.integers(6, 12))
         npar = int(rng.integers(1, 3))
@@ -234,11 +234,12 @@ def corrfit_cases(rng, n, ctx):
             def f(a, t):
                 return a[0] + a[1] * t
             expr = gen.node('add', gen.var(1), gen.node('mul', gen.var(2), gen.var(3)))
+        fr = [lo, hi]                    # the caller's own list, used again below
         try:
             if entry == 'range':
-                res = _quiet(lambda: c.fit(f, [lo, hi], silent=True))
+                res = _quiet(lambda: c.fit(f, fr, silent=True))
             elif entry == 'prange':
-                c.set_prange([lo, hi])
+                c.set_prange(fr)
                 res = _quiet(lambda: c.fit(f, silent=True))
         except Exception as e:  # noqa: BLE001
             cases.append({'id': 'cfit-%04d-%s' % (i, entry), 'ev': 'fit', 'res': {'k': 'exc', 't': type(e).__name__}})
@@ -251,6 +252,15 @@ def corrfit_cases(rng, n, ctx):
                       'points': [{'e': 1, 'x': [rat(float(t))]} for t in pts], 'y': [project_obs(o) for o in ys],
                       'W': {'k': 'diag', 'dy': before}, 'priors': [], 'res': rec})
         cases.append({'id': cid + '-frame', 'ev': 'frame', 'what': 'Corr.fit leaves the errors of the correlator as the caller computed them', 'before': before, 'after': after})
+        cases.append({'id': cid + '-frame2', 'ev': 'frame', 'what': 'Corr.fit leaves the range it was given (and the stored plateau range) as they were',
+                      'before': [lo, hi] + ([lo, hi] if entry == 'prange' else []), 'after': [int(v) for v in fr] + ([int(v) for v in c.prange] if entry == 'prange' else [])})
+        try:
+            res2 = _quiet(lambda: c.fit(f, fr, silent=True) if entry == 'range' else c.fit(f, silent=True))
+            cases.append({'id': cid + '-again', 'ev': 'same', 'what': 'the same fit request a second time', 'rtol': '1/10000000000',
+                          'a': {'k': 'ok', 'p': rec['p']}, 'b': {'k': 'ok', 'p': [project_obs(o) for o in res2.fit_parameters]}})
+        except Exception as e:  # noqa: BLE001
+            cases.append({'id': cid + '-again', 'ev': 'same', 'what': 'the same fit request a second time', 'rtol': '1/10000000000',
+                          'a': {'k': 'ok', 'p': rec['p']}, 'b': {'k': 'exc', 't': type(e).__name__}})
         ctx.nontrivial.add(('cfit', T, npar, entry, tuple(sorted(gmkw))))
     return cases
 
